@@ -219,6 +219,37 @@ def repo_calls():
     calls.append(("fn", "abelian_core", "without", [(5, 6, 7, 8), (1, 3)]))
     calls.append(("fn", "abelian_core", "replace_with_seq", [(1, 2, 3), 1, (9, 9)]))
     calls.append(("fn", "abelian_core", "calc_fuse_group_info", [((2, 0), (3,)), (False, True, False, True, True)]))
+    # the reshape axis matcher (labels are built with f-strings and used as data): every shape over {1,2,3}
+    # with <= 3 axes against every drop / merge target, plus requests that must raise
+    import itertools as _it
+
+    def targets(shape):
+        out = set()
+        ones = [i for i, d in enumerate(shape) if d == 1]
+        for k in range(len(ones) + 1):
+            for drop in _it.combinations(ones, k):
+                kept = [d for i, d in enumerate(shape) if i not in drop]
+                for cuts in range(2 ** max(len(kept) - 1, 0)):
+                    t, cur = [], None
+                    for i, d in enumerate(kept):
+                        if cur is None:
+                            cur = d
+                        elif (cuts >> (i - 1)) & 1:
+                            t.append(cur)
+                            cur = d
+                        else:
+                            cur *= d
+                    if cur is not None:
+                        t.append(cur)
+                    out.add(tuple(t))
+        return sorted(out)
+
+    for n in range(0, 4):
+        for shape in _it.product((1, 2, 3), repeat=n):
+            for t in targets(shape):
+                calls.append(("fn", "abelian_core", "calc_reshape_args", [shape, t, (None,) * n]))
+    for a in [((4, 3), (2, 2, 3), ((2, 2), None)), ((2, 6), (2, 2, 3), (None, (2, 3))), ((2, 3), (5,), (None, None)), ((6,), (4,), (None,)), ((2, 2), (2, 2), ((2, 2), None)), ((4,), (1, 2, 2, 1), ((2, 2),))]:
+        calls.append(("fn", "abelian_core", "calc_reshape_args", list(a)))
     return calls
 
 
